@@ -99,9 +99,11 @@ if __name__ == "__main__":
         rule="counter: EXHAUSTIVE enumeration of all op sequences over {HandleRequest, RecordResult(false), RecordResult(true)} "
              "of depth 9 (quick) / 11 (thorough) for every N in 1..4 and MinSuccesses in 0..N+1, plus seeded random phase-structured "
              "runs with N in 1..8 and 100; detector: seeded random histories of FilterAddrs over real multiaddrs of all 8 "
-             "(public,udp,ip6) classes, RecordResult and direct counter updates, nil/non-nil counters, read-only on/off. "
+             "(public,udp,ip6) classes, RecordResult and direct counter updates, Swarm.dialAddr with a scripted transport (dial ok / dial fails / context "
+             "already cancelled / no transport / dial to self), nil/non-nil counters, read-only on/off. "
              "Every observation (returned state / State() after each op, per-address kept/black-holed flag) is compared with the "
-             "Coq model (conform_case) and judged by the property monitor (monitor_case). A case is non-trivial when a Blocked "
+             "Coq model (conform_case) and judged by the property monitors (monitor_case: per-step filter soundness, read-only and no-dial frozen, "
+             "and the probe clause: never N consecutive refused pure requests of a kind while Blocked). A case is non-trivial when a Blocked "
              "state or answer was observed; distinct = distinct case lines among those.",
         describe=describe, key=key, what=what, crosscheck=300,
     ))
